@@ -9,6 +9,8 @@ S = {s['id']: s for s in SPECS}
 
 def run(rep, ctx):
     g = ctx.g
+    from .c01 import run_N_writer
+    run_N_writer(rep, g, ['write::range::', 'write::loc::'])
     run_specs(rep, ctx, 'C16')
     k1_pairing(rep, g, 'K1-rle', S['w_rnglists'], [S['rle_parse']], 'DW_RLE_')
     k1_pairing(rep, g, 'K1-lle', S['w_loclists'], [S['lle_parse']], 'DW_LLE_')
